@@ -208,6 +208,10 @@ def _save_file(
         tensor = value.const_value
         assert tensor is not None
         if tensor.nbytes < size_threshold_bytes:
+            if isinstance(tensor, ir.ExternalTensor):
+                # Like ir.save(), store small external tensors in the model file. Load them
+                # now, before a data file they may live in is overwritten below.
+                value.const_value = ir.external_data.convert_tensors_from_external([tensor])[0]
             continue
         tensors_to_save.append(tensor)
         values_to_save.append(value)
